@@ -368,6 +368,7 @@ func checkC14(w *World, r *Report) {
 	checkTreesAreParsed(w, r)
 	checkSizesNotNarrowed(w, r)
 	checkParseGetsTheSource(w, r, "R14.13")
+	checkCountersBalanced(w, r)
 	// (R14.12) tokens once emitted stay in the stream: no element-wise copy of a token list keeps or drops a token by what it is
 	checkListsNotFiltered(w, r, "R14.12", w.named("Token"), "token", "tokens already emitted (comments, text) are removed from the stream — and only when the buffer happens to be full, so what a construct means depends on how much template precedes it")
 }
@@ -1128,4 +1129,131 @@ func reducedBelow(v ssa.Value, bits int) bool {
 		return k >= int64(64-bits)
 	}
 	return false
+}
+
+// checkCountersBalanced — R14.14: a depth counter is given back on every successful way out.  In a
+// function that increments a field of a shared object (x.f = x.f + 1) and also decrements it, every
+// path from the increment to a return that can carry a nil error passes a decrement (directly or
+// deferred).  A counter that leaks one unit on some successful path ("the ternary arm returns
+// early") fills up with the number of such constructs in the template: from some length on, every
+// later expression is refused — or accepted differently — although nothing about it changed.
+func checkCountersBalanced(w *World, r *Report) {
+	n := 0
+	for _, fn := range w.pkgFuncs() {
+		type cnt struct {
+			inc []*ssa.Store
+			dec []*ssa.Store
+		}
+		counters := map[string]*cnt{}
+		deferredDec := map[string]bool{}
+		classify := func(st *ssa.Store) (string, int) {
+			fa, ok := st.Addr.(*ssa.FieldAddr)
+			if !ok {
+				return "", 0
+			}
+			bo, ok := st.Val.(*ssa.BinOp)
+			if !ok || (bo.Op != token.ADD && bo.Op != token.SUB) {
+				return "", 0
+			}
+			c, ok := bo.Y.(*ssa.Const)
+			if !ok || c.Value == nil || c.Value.Kind() != constant.Int {
+				return "", 0
+			}
+			u, ok := bo.X.(*ssa.UnOp)
+			if !ok || u.Op != token.MUL {
+				return "", 0
+			}
+			fa2, ok := u.X.(*ssa.FieldAddr)
+			if !ok || fa2.Field != fa.Field || !sameValue(origin(fa2.X), origin(fa.X)) {
+				return "", 0
+			}
+			if _, local := origin(fa.X).(*ssa.Alloc); local {
+				return "", 0
+			}
+			t, f := fieldOfAddr(fa)
+			k, _ := constant.Int64Val(c.Value)
+			if k != 1 {
+				return "", 0
+			}
+			if bo.Op == token.ADD {
+				return t + "." + f, +1
+			}
+			return t + "." + f, -1
+		}
+		instrsOf(fn, func(in ssa.Instruction) {
+			st, ok := in.(*ssa.Store)
+			if !ok {
+				return
+			}
+			name, dir := classify(st)
+			if name == "" {
+				return
+			}
+			if counters[name] == nil {
+				counters[name] = &cnt{}
+			}
+			if dir > 0 {
+				counters[name].inc = append(counters[name].inc, st)
+			} else {
+				counters[name].dec = append(counters[name].dec, st)
+			}
+		})
+		// decrements inside deferred closures
+		for _, a := range fn.AnonFuncs {
+			instrsOf(a, func(in ssa.Instruction) {
+				if st, ok := in.(*ssa.Store); ok {
+					if fa, ok := st.Addr.(*ssa.FieldAddr); ok {
+						if bo, ok := st.Val.(*ssa.BinOp); ok && bo.Op == token.SUB {
+							t, f := fieldOfAddr(fa)
+							deferredDec[t+"."+f] = true
+						}
+					}
+				}
+			})
+		}
+		ei := errResultIndex(fn.Signature)
+		for name, c := range counters {
+			if len(c.inc) == 0 || (len(c.dec) == 0 && !deferredDec[name]) {
+				continue // a plain counter (statistics, positions), not a bracket
+			}
+			n++
+			construct := name + " is decremented on every successful way out"
+			if deferredDec[name] {
+				r.ok("R14.14", ssaName(fn), construct, w.posOf(c.inc[0].Pos()), "decremented in a deferred function", true)
+				continue
+			}
+			isDec := func(x ssa.Instruction) bool {
+				for _, d := range c.dec {
+					if x == ssa.Instruction(d) {
+						return true
+					}
+				}
+				return false
+			}
+			bad := ""
+			for _, inc := range c.inc {
+				instrsOf(fn, func(in ssa.Instruction) {
+					ret, ok := in.(*ssa.Return)
+					if !ok || bad != "" {
+						return
+					}
+					if ei >= 0 {
+						res := retResults(ret)
+						if ei < len(res) && errorSurelyNonNil(res[ei], ret.Block()) {
+							return // a failed parse / render is abandoned
+						}
+					}
+					if found, path := existsPathFromAvoiding(fn, inc, in, isDec, nil); found {
+						bad = w.posOf(ret.Pos()) + " (path " + strings.Join(path, " → ") + ")"
+					}
+				})
+			}
+			if bad == "" {
+				r.ok("R14.14", ssaName(fn), construct, w.posOf(c.inc[0].Pos()), "every path from the increment to a successful return passes a decrement", true)
+			} else {
+				r.bad("R14.14", ssaName(fn), construct, w.posOf(c.inc[0].Pos()), "the function can return successfully at "+bad+" with the counter still raised: each such construct in a template uses up one unit for good, so from a certain number of them on every later construct is treated as too deeply nested — how a tag is read depends on how much template precedes it")
+			}
+		}
+	}
+	r.Counts["bracketing counters on shared objects"] = n
 }
